@@ -99,6 +99,8 @@ def run(chk):
     sentinel.run_units(chk, ("x86",))
     opkind.run(chk, emit, floor=30)
 
+    from lib import jecxzrule
+    jecxzrule.run(chk)
     return chk.finish(
         level="other", exhaustive=False,
         explanation=("Table, database and dispatch rules over the x86 backend of /repo's current source: every entry of the encoder's "
